@@ -10,8 +10,8 @@ import (
 
 	"github.com/bnb-chain/tss-lib/v2/common"
 	"github.com/bnb-chain/tss-lib/v2/crypto"
-	cmt "github.com/bnb-chain/tss-lib/v2/crypto/commitments"
 	"github.com/bnb-chain/tss-lib/v2/crypto/ckd"
+	cmt "github.com/bnb-chain/tss-lib/v2/crypto/commitments"
 	"github.com/bnb-chain/tss-lib/v2/crypto/dlnproof"
 	"github.com/bnb-chain/tss-lib/v2/crypto/facproof"
 	"github.com/bnb-chain/tss-lib/v2/crypto/modproof"
